@@ -1,11 +1,12 @@
 package callsim
 
 import (
-	"math"
 	"encoding/binary"
 	"encoding/json"
 	"fmt"
+	"github.com/advancedclimatesystems/gonnx/verifsim"
 	"hash/fnv"
+	"math"
 	"os"
 	"time"
 
@@ -503,14 +504,14 @@ func hashCase(c *Case) uint64 {
 
 // worker bookkeeping shared by the serial engines.
 type runner struct {
-	envRead  bool
-	envNames []string
-	cfg  Config
-	st   *evid.Stats
-	rc   *refCache
-	stop bool
-	vcap int
-	recent []*Case // the last few worlds this process executed
+	envRead       bool
+	envNames      []string
+	cfg           Config
+	st            *evid.Stats
+	rc            *refCache
+	stop          bool
+	vcap          int
+	recent        []*Case // the last few worlds this process executed
 	worlds        int64
 	pristineEvery int64
 	seq           int64
@@ -580,6 +581,11 @@ func (rn *runner) gate(c *Case) bool {
 	rn.seq++
 	if !rn.envRead {
 		rn.envRead, rn.envNames = true, evid.EnvNames()
+	}
+	if c.World.Clock == nil && verifsim.ClockSites > 0 {
+		if c.World.Clock = evid.DrawClock(rng.Mix(rn.cfg.Seed, uint64(seq)*37+uint64(rn.cfg.W)+1)); c.World.Clock != nil && rn.st != nil {
+			rn.st.Fault("clock-jump")
+		}
 	}
 	if c.World.Env == nil && len(rn.envNames) > 0 {
 		if c.World.Env = evid.DrawEnv(rn.envNames, rng.Mix(rn.cfg.Seed, uint64(seq)*31+uint64(rn.cfg.W))); c.World.Env != nil && rn.st != nil {
